@@ -132,3 +132,32 @@ have /Hsum /existsb_exists [s [/in_map_iff [mc [<- Hmc]] /negP Hs]] : List.In (s
   by rewrite /addn /addn_rec /subn /subn_rec; lia.
 by apply: Hs; apply/memnP; apply: (modcert_degree (Hok _ Hmc) E).
 Qed.
+
+(* ------------------------------------------------------------------ ... hence irreducible over Q (Gauss' lemma, mathcomp intdiv) *)
+Lemma PQ_int (f : seq Z) : PQ f = map_poly (intr : int -> rat) (map_poly int_of_Z (Poly f)).
+Proof. by rewrite -map_poly_comp. Qed.
+
+Lemma map_Z_of_intK (P : {poly Z}) : map_poly Z_of_int (map_poly int_of_Z P) = P.
+Proof. by rewrite -map_poly_comp map_poly_id // => x _ /=; exact: int_of_ZK. Qed.
+
+Theorem irred_Z_cert_rat f certs : irred_Z_cert f certs = true -> irreducible_poly (PQ f).
+Proof.
+move=> H; have Hz := irred_Z_cert_sound H.
+have d1 : (1 < size (PQ f))%N.
+  move: H; rewrite /irred_Z_cert => /andP[/andP[/Nat.leb_le/leP d1 _] _].
+  by rewrite size_PQ; move: d1; rewrite pdeg_size; case: (size (Poly f)) => [|[|n]].
+split=> // d dn1; rewrite PQ_int => /dvdpP_rat_int [p1 [a a0 Ed] [r Er]].
+rewrite -PQ_int -dvdp_size_eqp; last by rewrite PQ_int Er rmorphM /= Ed dvdpZl // dvdp_mulr.
+have szd : size d = size p1.
+  by rewrite Ed size_scale // size_map_inj_poly //; apply: intr_inj.
+have E : Poly f = map_poly Z_of_int p1 * map_poly Z_of_int r.
+  by rewrite -rmorphM /= -Er map_Z_of_intK.
+have szg : size (map_poly Z_of_int p1) = size p1.
+  by rewrite size_map_inj_poly //; apply: (can_inj Z_of_intK).
+have F0 : Poly f != 0 by rewrite -size_poly_gt0 -size_PQ; apply: ltn_trans d1.
+have [g0 h0] : map_poly Z_of_int p1 != 0 /\ map_poly Z_of_int r != 0.
+  by move: F0; rewrite E mulf_eq0 negb_or => /andP[].
+case: (Hz _ _ E) => [g1|h1].
+  by move: dn1; rewrite szd -szg g1.
+by rewrite szd size_PQ E size_mul // h1 addn1 /= szg.
+Qed.
